@@ -1335,6 +1335,8 @@ class LogixDriver(CIPDriver):
 
             if bit is not None:  # tag.N addresses bit N of an integer: N must be a bit of that integer
                 _bit_type = DataTypes.get(tag_info["data_type"]) if tag_info["tag_type"] == "atomic" else None
+                if tag_info["data_type"] in ("BOOL", "DWORD"):  # a BOOL or an element of a BOOL array has no bits
+                    _bit_type = None
                 if _bit_type is None or not getattr(_bit_type, "size", 0) or not 0 <= bit < _bit_type.size * 8:
                     raise RequestError(f"Invalid bit number for {tag_info['data_type_name']}: {request_tag}")
 
